@@ -42,7 +42,7 @@ import (
 )
 
 func init() {
-	register(&Prop{ID: "C46", Module: "V.C46.Check", Gen: c46Gen, Quick: 30, Thorough: 500, Shard: 5})
+	register(&Prop{ID: "C46", Module: "V.C46.Check", Gen: c46Gen, Quick: 30, Thorough: 500, Shard: 4})
 }
 
 // c46B prints a byte string in the transport encoding of coq/C46/Check.v: (B len [w;...]), 7 bytes per word.
@@ -294,7 +294,7 @@ type c46RunResult struct {
 }
 
 // one execution of the real bundler with the completion order [order] (hrefs)
-func c46RunOnce(g *c46Group, elig []string, byHref map[string]*c46Img, order []string) (res c46RunResult) {
+func c46RunOnce(g *c46Group, elig []string, byHref map[string]*c46Img, order []string, burst bool) (res c46RunResult) {
 	c46RunSeq++
 	gates := map[string]chan struct{}{}
 	for _, h := range elig {
@@ -375,6 +375,15 @@ func c46RunOnce(g *c46Group, elig []string, byHref map[string]*c46Img, order []s
 	}
 	if lg.nStarted() < want {
 		res.synced = false
+	}
+	if burst { // all workers finish at (nearly) the same moment: no order is forced
+		for _, h := range order {
+			if ch, ok := gates[h]; ok && !released[h] {
+				close(ch)
+				released[h] = true
+			}
+		}
+		order = nil
 	}
 	for k, h := range order {
 		if ch, ok := gates[h]; ok && !released[h] {
@@ -623,6 +632,15 @@ func c46RunGroup(r *Rng, g *c46Group) Case {
 	if len(orders) == 0 {
 		orders = [][]int{{}}
 	}
+	// plus burst runs (all workers released at once), reported with the document order
+	nForced := len(orders)
+	if !g.replay && n >= 2 {
+		doc := make([]int, n)
+		for i := range doc {
+			doc[i] = i
+		}
+		orders = append(orders, doc, doc)
+	}
 	var outs []string
 	outIdx := map[string]int{}
 	var runsCoq []string
@@ -636,7 +654,8 @@ func c46RunGroup(r *Rng, g *c46Group) Case {
 			oh[i] = elig[x]
 			oc[i] = coqN(uint64(x))
 		}
-		rr := c46RunOnce(g, elig, byHref, oh)
+		burst := k >= nForced
+		rr := c46RunOnce(g, elig, byHref, oh, burst)
 		if rr.fail != "" {
 			c.ImplFail = append(c.ImplFail, rr.fail)
 			continue
@@ -1019,7 +1038,10 @@ func c46Gen(r *Rng, tier string, n int) []Case {
 			}
 		}
 		// 5 images: all 120 orders for a few failing subsets
-		masks := []int{0, 1 << 2, 0b10010, 0b11111}
+		masks := []int{0, 0b10010}
+		if !remote {
+			masks = []int{1 << 2, 0b11111}
+		}
 		if tier == "thorough" {
 			masks = nil
 			for m := 0; m < 32; m++ {
